@@ -619,6 +619,14 @@ impl<T: Clone + Eq + Debug + Default> WrappedBlock<T> {
                             while pos % tab_stop != 0 || !at_least_one_space {
                                 verif_tick!(TabStop);
                                 if pos >= self.width {
+                                    if pos == 0 {
+                                        // Zero width: not even one space fits,
+                                        // so no progress is possible.
+                                        if self.allow_overflow {
+                                            break;
+                                        }
+                                        return Err(TooNarrow);
+                                    }
                                     self.flush_line();
                                     pos = 0;
                                 } else {
